@@ -202,6 +202,33 @@ theorem count_def [NumOps α] (db : DB α) (c : String) (v : α) (j : Nat) (hj :
     db.count c v = .ok ((db.t.rows.filter fun r => Num.eq (cellD r.2 j) v).length) := by
   simp [DB.count, hj, Table.column, List.countP_eq_length_filter, List.filter_map, Function.comp_def]
 
+/-- **`count` is exact**: it returns the number of rows that HOLD the value — rows holding
+another value, however close, are not counted: a value held by no row is counted 0 times, a
+value held by some row at least once, and over the distinct values of the column the counts
+add up to the number of rows (no row is counted for two values). -/
+theorem count_exact [NumOps α] (heq : EqOK α) (db : DB α) (c : String) (j : Nat)
+    (hj : colIdx db.t.cols c = some j) :
+    (∀ v, db.count c v = .ok ((db.t.rows.filter fun r => Num.eq (cellD r.2 j) v).length) ∧
+        ∀ r, r ∈ (db.t.rows.filter fun r => Num.eq (cellD r.2 j) v) ↔ r ∈ db.t.rows ∧ cellD r.2 j = v) ∧
+    (∀ v, v ∉ db.t.column j ↔ db.count c v = .ok 0) ∧
+    (((dedup (db.t.column j)).map fun v => (db.t.column j).countP fun x => Num.eq x v).sum = db.t.rows.length) := by
+  refine ⟨?_, ?_, ?_⟩
+  · intro v
+    refine ⟨count_def db c v j hj, fun r => ?_⟩
+    rw [List.mem_filter, heq]
+  · intro v
+    simp only [DB.count, hj]
+    rw [← countP_eq_zero_iff_absent heq]
+    constructor
+    · intro h; rw [h]
+    · intro h; exact Except.ok.inj h
+  · rw [counts_partition heq]; simp [Table.column]
+
+/-- the counts the driver returns for a list of values (`counts` request): one `count` each -/
+theorem counts_def [NumOps α] (db : DB α) (c : String) (vs : List α) (j : Nat) (hj : colIdx db.t.cols c = some j) :
+    db.counts c vs = .ok (vs.map fun v => (db.t.rows.filter fun r => Num.eq (cellD r.2 j) v).length) := by
+  simp [DB.counts, hj, Table.column, List.countP_eq_length_filter, List.filter_map, Function.comp_def]
+
 /-! ## flattening -/
 
 /-- **Flattening a panel loses and invents nothing**: the groups are the individuals in
@@ -301,6 +328,16 @@ example :
     let t : Table Int := ⟨["id", "x"], [(0, [1, 4]), (2, [1, 5]), (5, [2, 6]), (9, [3, 7])]⟩
     keepPositional t.rows (dropMask (t.eval (.gt (.var "x") (.num 5)))) = [(0, [1, 4]), (2, [1, 5])] ∧
     (t.addCol "z" (.mul (.var "x") (.num 2))).rows = [(0, [1, 4, 8]), (2, [1, 5, 10]), (5, [2, 6, 12]), (9, [3, 7, 14])] := by
+  decide
+
+/-- identifiers that differ by one unit, after a removal left gaps in the labels: each is counted
+for itself only; an absent neighbour is counted 0 times -/
+example :
+    let db : DB Int := ⟨⟨["hh", "x"], [(0, [4210017, 1]), (3, [4210018, 2]), (4, [4210017, 3]), (9, [4210019, 4])]⟩, 2, none, []⟩
+    (db.count "hh" 4210017).toOption = some 2 ∧ (db.count "hh" 4210018).toOption = some 1 ∧
+    (db.count "hh" 4210020).toOption = some 0 ∧
+    (db.counts "hh" [4210017, 4210018, 4210019, 4210016]).toOption = some [2, 1, 1, 0] ∧
+    (db.count "nope" 1).toOption = none := by
   decide
 
 example : isFoldPartition [0, 2, 5, 9] 2 [([5, 9], [2, 0]), ([2, 0], [5, 9])] = true ∧
